@@ -546,6 +546,8 @@ struct HfeCopyState
   int got_bits = 0;
   byte out = 0;
   byte this_op = 0;
+  int skipbits = 0;
+  bool after_skipbits = false;
 };
 
 void copy_hfe(bool hfe3, const byte* begin, const byte* end,
@@ -555,9 +557,10 @@ void copy_hfe(bool hfe3, const byte* begin, const byte* end,
   int& got_bits = state.got_bits;
   byte& out = state.out;
   byte& this_op = state.this_op;
+  int& skipbits = state.skipbits;
+  bool& after_skipbits = state.after_skipbits;
   while (begin != end)
     {
-      int skipbits = 0;
       byte in = *begin++;
       if (this_op)
 	{
@@ -579,7 +582,7 @@ void copy_hfe(bool hfe3, const byte* begin, const byte* end,
 	      if (DFS::verbose)
 		{
 		  std::cerr << "HFEv3: setbitrate: ignoring value 0x"
-			    << std::setfill('0') << std::hex << skipbits << "\n";
+			    << std::setfill('0') << std::hex << unsigned(in) << "\n";
 		}
 	      continue;
 
@@ -594,10 +597,16 @@ void copy_hfe(bool hfe3, const byte* begin, const byte* end,
 		if (in >= 8)
 		  {
 		    std::cerr << "HFEv3: unexpected SKIPBITS argument " << in << "\n";
+		    skipbits = 0;
 		    continue;
 		  }
+		// The bits to skip are the leading bits of the byte
+		// which follows the operand; the operand itself
+		// carries no track data.  That following byte is
+		// always data, whatever its skipped bits look like.
+		after_skipbits = true;
 	      }
-	      break;
+	      continue;
 
 	    case RAND_OPCODE:
 	      /* The purpose of RAND_OPCODE is, I think, so that the
@@ -641,7 +650,7 @@ void copy_hfe(bool hfe3, const byte* begin, const byte* end,
 	    }
 	  this_op = 0;
 	}
-      else if (hfe3 && is_hfe3_opcode(in))
+      else if (hfe3 && !after_skipbits && is_hfe3_opcode(in))
 	{
 	  if (DFS::verbose)
 	    {
@@ -686,6 +695,7 @@ void copy_hfe(bool hfe3, const byte* begin, const byte* end,
 	  this_op = 0;
 	}
 
+      after_skipbits = false;
       for (int bitnum = 0; bitnum < 8; ++bitnum)
 	{
 	  if (skipbits > 0)
@@ -704,12 +714,14 @@ void copy_hfe(bool hfe3, const byte* begin, const byte* end,
 	     data, we worry about that separately. */
 	  out = static_cast<byte>((out >> 1 ) | bit);
 	  ++got_bits;
-	}
-      if (8 == got_bits)
-	{
-	  *dest++ = out;
-	  out = 0;
-	  got_bits = 0;
+	  // Emit as soon as we have a whole byte: after SKIPBITS
+	  // the byte boundaries of input and output differ.
+	  if (8 == got_bits)
+	    {
+	      *dest++ = out;
+	      out = 0;
+	      got_bits = 0;
+	    }
 	}
     }
 }
